@@ -535,3 +535,34 @@ def any_hook(ip, S, node=None):
     P = named_exists(ip, name, [], n, pred)
     saturate(ip)
     return SBool(P(n))
+
+
+def filter_count(ip, name: str, args: list, n, keep_fn):
+    """Position function of a filter over the source positions [0, n):  cnt(k) = #{j < k : keep(j)}  is the length of the filtered
+    list after k iterations, and src(p) is the source position of list position p (ghost inverse of cnt on the kept positions,
+    well defined because cnt is injective there).  Instances at every index term in use:
+      cnt(0) = 0, cnt(k+1) = cnt(k) + [keep k]                     (lean: cnt_zero, cnt_succ)
+      k <= n => cnt(k) <= cnt(n);  k < n => cnt(k+1) <= cnt(n)     (lean: cnt_mono; with cnt_succ this is cnt_lt)
+      k < n and keep(k) => src(cnt(k)) = k                         (definition of src; lean: cnt_inj)
+    Returns (cnt, src) as functions of an index term."""
+    s = seqs(ip)
+    p = ip.path
+    sorts = [a.sort() for a in args]
+    CNT = fn("CNT_" + name, *sorts, I, I)
+    SRC = fn("SRC_" + name, *sorts, I, I)
+    key = f"cnt:{name}:{[str(a) for a in args]}:{n}"
+    if key not in s.done:
+        s.done.add(key)
+        p.assume(CNT(*args, z3.IntVal(0)) == 0)
+        p.assume(CNT(*args, n) >= 0)
+
+        def pw(k):
+            if _once(ip, f"{key}:at:{k}"):
+                ck, ck1, cn = CNT(*args, k), CNT(*args, k + 1), CNT(*args, n)
+                p.assume(z3.Implies(k >= 0, z3.And(ck >= 0, ck1 == ck + z3.If(keep_fn(k), 1, 0))))
+                p.assume(z3.Implies(z3.And(k >= 0, k <= n), ck <= cn))
+                p.assume(z3.Implies(z3.And(k >= 0, k < n), ck1 <= cn))
+                p.assume(z3.Implies(z3.And(k >= 0, k < n, keep_fn(k)), SRC(*args, ck) == k))
+        s.pointwise.append(pw)
+    tm = lambda k: k if not isinstance(k, int) else z3.IntVal(k)
+    return (lambda k: CNT(*args, tm(k))), (lambda q: SRC(*args, tm(q)))
